@@ -58,7 +58,7 @@ def main(argv):
         for f in corpus_flags: lines += run_harness(v, ['flags', f], seed)
         for f in corpus_text: lines += run_harness(v, ['text', f], seed)
         if not replay:
-            n = {'quick': (64, 1500, 2000), 'thorough': (600, 15000, 20000)}[tier if tier in ('quick', 'thorough') else 'quick']
+            n = {'quick': (24, 500, 700), 'thorough': (600, 15000, 20000)}[tier if tier in ('quick', 'thorough') else 'quick']
             lines += run_harness(v, ['labels', n[0]], seed) + run_harness(v, ['parse', n[1]], seed) + run_harness(v, ['elab', n[2]], seed)
         for l in lines:
             parts = l.split('\t')
